@@ -184,9 +184,16 @@ class DBHandler:
                 (query, query_parameter) = await self._execute_queue.get()
 
                 try:
+                    executed = False
+
                     while True:
                         try:
-                            await self.connection.execute(query, query_parameter)
+                            # A failed commit leaves the transaction open: repeat only the commit,
+                            # executing the statement again would store the row twice.
+                            if not executed:
+                                await self.connection.execute(query, query_parameter)
+                                executed = True
+
                             await self.connection.commit()
                             break
                         except aiosqlite.OperationalError:
